@@ -36,7 +36,8 @@ class IPv4SRTE(NLRI):
     @classmethod
     def construct(cls, data):
         """ Construct NLRI """
+        # AFI 1: the endpoint is an IPv4 address, the NLRI is 96 bits long
         nlri_tmp = b'' + struct.pack('!I', data['distinguisher']) + \
             struct.pack('!I', data['color']) + \
-            netaddr.IPAddress(data['endpoint']).packed
+            netaddr.IPAddress(data['endpoint'], 4).packed
         return struct.pack('!B', len(nlri_tmp) * 8) + nlri_tmp
